@@ -155,8 +155,9 @@ def run_tie(run, tier, seed, results):
         for j, o in pick:
             if j.get("export"):
                 items.append((name, j, o))
-    if not quick and len(items) > 2500:        # thorough tier: an even sample over all streams
-        items = items[::-(-len(items) // 2500)]
+    if not quick and len(items) > 2500:        # thorough tier: the corpus and an even sample over the other streams
+        rest = [x for x in items if x[0] != "corpus"]
+        items = [x for x in items if x[0] == "corpus"] + rest[::-(-len(rest) // 2500)]
     cases = [c_case(j, o) for _, j, o in items]
     res = dict(core.coq_eval_cases("C04", "bridge", IMPORTS, "c04e_case", cases,
                                    "run_cases (fun c => 100 + 10 * c04e_why c + chk_c04e c)", chunk=30, timeout=1500))
